@@ -34,7 +34,7 @@ from pathlib import Path
 VERIF = Path(__file__).resolve().parent.parent
 EVIDENCE = VERIF / "evidence"
 REPLAY = EVIDENCE / "replay"
-FINDINGS = VERIF / "known_findings.txt"
+FINDINGS = Path(os.environ.get("VERIF_FINDINGS_DEV") or VERIF / "known_findings.txt")  # the override is for development of a classifier only
 PY = "/venv/bin/python"
 
 MAX_SAMPLES = 6
